@@ -137,6 +137,15 @@ def directed_programs():
     return [
         ("shadow-callee", (g("vp_sink", "hit"), g("vp_other", "hit"), A.POP, A.EMPTY_TUPLE, A.REDUCE, A.STOP)),
         ("shadow-value", (g("vp_sink", "hit"), g("vp_other", "hit"), A.TUPLE2, A.STOP)),
+        # the same attribute name resolved from module A, then B, then A again right before it is used: a decompile
+        # that refers to globals by bare name has to import A again (it does) - dropping "repeated" imports breaks it
+        ("shadow-aba-call", (g("vp_sink", "hit"), A.POP, g("vp_other", "hit"), A.POP, g("vp_sink", "hit"), A.MARK, A.SBU("x"),
+                             A.TUPLE, A.REDUCE, A.STOP)),
+        ("shadow-aba-call-sg", (A.SBU("vp_sink"), A.SBU("hit"), A.STACK_GLOBAL, A.POP, A.SBU("vp_other"), A.SBU("hit"), A.STACK_GLOBAL,
+                                A.POP, A.SBU("vp_sink"), A.SBU("hit"), A.STACK_GLOBAL, A.EMPTY_TUPLE, A.REDUCE, A.STOP)),
+        ("shadow-aba-inst", (g("vp_sink", "K"), A.POP, g("vp_other", "K"), A.POP, A.MARK, A.BININT1(1), A.INST("vp_sink", "K"), A.STOP)),
+        ("shadow-abab-calls", (g("vp_sink", "hit"), A.EMPTY_TUPLE, A.REDUCE, A.POP, g("vp_other", "hit"), A.EMPTY_TUPLE, A.REDUCE, A.POP,
+                               g("vp_sink", "hit"), A.EMPTY_TUPLE, A.REDUCE, A.POP, g("vp_other", "hit"), A.EMPTY_TUPLE, A.REDUCE, A.STOP)),
         ("nonident-global", (A.SBU("not an identifier"), A.SBU("x y"), A.STACK_GLOBAL, A.STOP)),
         ("nonident-quote", (A.SBU("a'b"), A.SBU("c"), A.STACK_GLOBAL, A.EMPTY_TUPLE, A.REDUCE, A.STOP)),
         ("dotted-attr", (A.SBU("vp_sink"), A.SBU("K.method"), A.STACK_GLOBAL, A.STOP)),
